@@ -5,7 +5,7 @@ PROPERTY = 'C10'
 LEVEL = 'exploration'
 TIMEOUT_S = 1200
 RULE = ('(n_theta,n_z) x theta spline path (uniform cubic, general degrees 2/3/5 incl. non-uniform theta breaks) x iota in {0, 0.8, 40 (theta shift wraps '
-        'several times)} x displacement classes v*b_z*dt/dz in {0, +-1/4, +-1/2, +-1, +-2, +-3.5, +-(nz+1/4)} through v and dt of both signs x every (rIdx,vIdx) '
+        'several times)} x displacement classes v*b_z*dt/dz in {0, +-1/4, +-1/2, +-1, +-2, +-3, +-3.5, 6, -11, 13, +-(nz+1/4)} for a dyadic and a non-dyadic dz through v and dt of both signs x every (rIdx,vIdx) '
         'of a 3x5 block; data = constant, two dense vectors, and for selected configurations every unit impulse (full operator matrix); oracle = independent '
         'implementation of the stated formula (product-formula Lagrange weights on the floor-centred 6-point stencil, exact-rational theta interpolation '
         'matrices, periodic wrap in theta and z); identities: constants preserved, commutation with cyclic z-shift, integer displacement without twist is a '
@@ -17,15 +17,18 @@ SPACES = {'quick': [('cu', 3, None), ('nu', 2, [1, 2, 1.5]), ('nu', 3, [1, 1.7])
           'thorough': [('cu', 3, None), ('nu', 2, [1, 2, 1.5]), ('nu', 3, [1, 1.7]), ('nu', 5, None), ('nu', 3, None), ('nu', 1, [1, 2])]}
 IOTAS = [0.0, 0.8, 40.0]
 VS = [-1.0, -0.5, 0.0, 0.5, 1.0]
-CLASSES = [0.0, 0.25, -0.25, 1.0, -1.0, 2.0, -2.0, 3.5, -3.5, 'wrap', '-wrap']
+CLASSES = [0.0, 0.25, -0.25, 1.0, -1.0, 2.0, -2.0, 3.0, -3.0, 3.5, -3.5, 6.0, -11.0, 13.0, 'wrap', '-wrap']
+DZS = [0.5, 0.37]          # a dyadic and a non-dyadic cell size (k*dz inexact: whole-cell displacements must still be recognised)
 
 
 def cases(tier, seed):
     out = []
-    for (nq, nz), sp, iota in itertools.product(SIZES[tier], SPACES[tier], IOTAS):
+    for (nq, nz), sp, iota, dz in itertools.product(SIZES[tier], SPACES[tier], IOTAS, DZS):
         if sp[0] == 'nu' and sp[1] > nq:
             continue
-        out.append({'nq': nq, 'nz': nz, 'space': list(sp), 'iota': iota, 'tier': tier, 'cost': nq * nz * 10})
+        if tier == 'quick' and dz != 0.5 and (sp[0] != 'cu' and (nq, nz) != (5, 7)):
+            continue
+        out.append({'nq': nq, 'nz': nz, 'space': list(sp), 'iota': iota, 'dz': dz, 'tier': tier, 'cost': nq * nz * 10})
     return out
 
 
@@ -44,11 +47,11 @@ def run_case(case):
 
     def V(sig, what):
         viols.setdefault(sig, {'sig': sig, 'what': what, 'detail': {}})
-    tag = 'ntheta=%d nz=%d theta-spline=%s iota=%g' % (nq, nz, case['space'], iota)
+    tag = 'ntheta=%d nz=%d dz=%g theta-spline=%s iota=%g' % (nq, nz, case['dz'], case['space'], iota)
     c = Constants()
     c.iotaVal = iota
     tp = 2 * math.pi
-    dz = 0.5
+    dz = case['dz']
     # a torus whose circumference is the z period: the field line turns by 2*pi*iota/nz per cell
     c.R0 = nz * dz / tp
     R0 = c.R0
